@@ -10,8 +10,17 @@ stack-underflow fault.
 from .. import common, drive
 from ..avm import asm, absint, interp
 from ..recipe import build as rb
-from ..recipe import gen_ctrl, gen_expr, gen_reads, gen_sub, gen_opt
+from ..recipe import gen_ctrl, gen_expr, gen_reads, gen_sub, gen_opt, gen_abisub
 from . import c03
+
+
+def _unopt(prog, cfg, driver):
+    """text of the same program without the slot optimisation (for the optimiser-finding signature)"""
+    if driver == "abi-subs":
+        c2 = rb.Cfg(cfg.version, cfg.mode, scratch_slots=False, frame_pointers=cfg.frame_pointers)
+        st, text = gen_abisub.compile_native(prog["native"], c2)
+        return text if st == "ok" else ""
+    return c03._unopt_text(prog, cfg, drive.tickmode_for(cfg))
 
 PID = "C05"
 _CFGS = None
@@ -33,9 +42,15 @@ def _worker(items, base):
     cache = drive.ExecCache()
     for size, prog, driver, inputs in items:
         for cfg in _CFGS:
-            if prog.get("subs") and cfg.version < 4:
+            if (prog.get("subs") or driver == "abi-subs") and cfg.version < 4:
                 continue
-            st, text = drive.compile_recipe(prog, cfg)
+            if driver == "abi-subs":
+                # hand-written ABI-subroutine programs of gen_abisub (by-reference parameters, outputs, recursion)
+                if cfg.mode != "A":
+                    continue
+                st, text = gen_abisub.compile_native(prog["native"], cfg)
+            else:
+                st, text = drive.compile_recipe(prog, cfg)
             oc[st] = oc.get(st, 0) + 1
             if st != "ok":
                 continue
@@ -49,7 +64,7 @@ def _worker(items, base):
                     ("type" if ("required" in msg or "compares" in msg or "bytes on top" in msg) else "other")
                 feats = {"kind": kind, "driver": driver, "static": True}
                 if c03._optimises(cfg):
-                    feats.update(c03.optimizer_diff_features(c03._unopt_text(prog, cfg, drive.tickmode_for(cfg)), text))
+                    feats.update(c03.optimizer_diff_features(_unopt(prog, cfg, driver), text))
                 out["violations"].append({
                     "driver": driver, "size": size, "title": "%s: %s at line %d of %s (v%d %s)" % (driver, msg, ln, rid, cfg.version, cfg.mode),
                     "recipe": prog, "cfg": cfg.to_json(), "issue": [rid, ln, msg], "teal": text,
@@ -66,7 +81,7 @@ def _worker(items, base):
                         feats = {"kind": "dynamic_" + res.cat, "driver": driver, "static": False}
                         if c03._optimises(cfg):
                             # structural relation to the unoptimised text (signature of the C03 optimiser finding)
-                            feats.update(c03.optimizer_diff_features(c03._unopt_text(prog, cfg, drive.tickmode_for(cfg)), text))
+                            feats.update(c03.optimizer_diff_features(_unopt(prog, cfg, driver), text))
                         out["violations"].append({
                             "driver": driver, "size": size,
                             "title": "%s: run-time %s fault: %s (line %s, v%d)" % (driver, res.cat, res.why, res.line, cfg.version),
@@ -116,6 +131,8 @@ def run(tier):
         items.append((size, prog, "subs", inputs))
     for size, prog, placement in gen_opt.programs(3 if tier == "quick" else 4):
         items.append((size, prog, "opt-" + placement, basic[1:]))
+    for size, nat, inputs in gen_abisub.programs(tier):
+        items.append((size, {"native": nat}, "abi-subs", inputs))
     rep.bounds["recipes"] = len(items)
     for sh in common.pmap_shards(_worker, items, order_seed=rep.seed):
         rep.merge(sh)
@@ -128,7 +145,10 @@ def run(tier):
 
 def replay(case):
     cfg = rb.Cfg.from_json(case["cfg"])
-    st, text = drive.compile_recipe(case["recipe"], cfg)
+    if "native" in case["recipe"]:
+        st, text = gen_abisub.compile_native(case["recipe"]["native"], cfg)
+    else:
+        st, text = drive.compile_recipe(case["recipe"], cfg)
     if st != "ok":
         print("does not compile any more:", st)
         return False
